@@ -53,13 +53,28 @@ static void OneComplOp(TempResult* pErg, TempResult* pLVal, TempResult* pRVal) {
     PromoteLValFlags();
 }
 
+/* C leaves a shift by a negative count or by the operand's width or more undefined:
+   a negative count shifts into the opposite direction, a count of LARGEBITS or more
+   shifts all bits out. */
+
+static LargeInt ShiftOp(LargeInt Value, LargeInt Count, Boolean Left) {
+    if (Count < 0) {
+        Left  = !Left;
+        Count = (Count <= -LARGEBITS) ? LARGEBITS : -Count;
+    }
+    if (Count >= LARGEBITS) {
+        return (Left || (Value >= 0)) ? 0 : -1;
+    }
+    return Left ? (LargeInt)((LargeWord)Value << Count) : (Value >> Count);
+}
+
 static void ShLeftOp(TempResult* pErg, TempResult* pLVal, TempResult* pRVal) {
-    as_tempres_set_int(pErg, pLVal->Contents.Int << pRVal->Contents.Int);
+    as_tempres_set_int(pErg, ShiftOp(pLVal->Contents.Int, pRVal->Contents.Int, True));
     PromoteLRValFlags();
 }
 
 static void ShRightOp(TempResult* pErg, TempResult* pLVal, TempResult* pRVal) {
-    as_tempres_set_int(pErg, pLVal->Contents.Int >> pRVal->Contents.Int);
+    as_tempres_set_int(pErg, ShiftOp(pLVal->Contents.Int, pRVal->Contents.Int, False));
     PromoteLRValFlags();
 }
 
